@@ -9,6 +9,7 @@ import PyYetiVerif.Props.C18Cyc
 import PyYetiVerif.Props.C18Tran0
 import PyYetiVerif.Props.C18TranM
 import PyYetiVerif.Props.C18Assoc
+import PyYetiVerif.Props.C18Shapes
 #print axioms PyYetiVerif.C18.base_sets_disjoint
 #print axioms PyYetiVerif.C18.superset_is_union
 #print axioms PyYetiVerif.C18.superset_is_union_bitwise
@@ -116,3 +117,10 @@ import PyYetiVerif.Props.C18Assoc
 #print axioms PyYetiVerif.C18.ulvsLevels_complete
 #print axioms PyYetiVerif.C18.ulvsLevels_sound
 #print axioms PyYetiVerif.C18.formulvs_path_composes_of_test
+#print axioms PyYetiVerif.C18.formulvs_path_composes_rect
+#print axioms PyYetiVerif.C18.WF_iff_wfB
+#print axioms PyYetiVerif.C18.formtranUpWith_rect
+#print axioms PyYetiVerif.C18.formtran0With_rect
+#print axioms PyYetiVerif.C18.formtran_rect
+#print axioms PyYetiVerif.C18.ulvsLevel_rect
+#print axioms PyYetiVerif.C18.formulvs_path_composes_wf
